@@ -672,6 +672,8 @@ theorem island_spec (ntree : Nat) (dofnum : Array Int) (dofTree : List Nat)
              efc_island := (((owners [] rows).map rowTree).map (fun i => a.island.getD i.toNat 0)).toArray,
              efcs := efcs }, ?_, ?_⟩
   · unfold island
+    have hemp : rows.isEmpty = false := by cases rows with | nil => exact absurd rfl hne | cons _ _ => rfl
+    simp only [hemp, Bool.false_eq_true, ↓reduceIte]
     rw [hu]
     simp only [ea, hc, ↓reduceIte, et, hdi, ed, eda, hei, ee]
   · refine ⟨⟨f.isz, f.psz, f.neg, f.rng, f.eq_iff, f.lt_iff, f.surj, f.compressed⟩, hpos, by simp, ?_, ?_,
